@@ -144,6 +144,32 @@ def gen_server(tree):
              "_get_exposed_members: the cache is indexed by something other than cache_key")
     out += "\n(* _get_exposed_members: the metadata cache is keyed by the class object itself (not by a name) *)\n"
     out += "Definition metadata_cache_keyed_by_class : bool := %s.\n" % cbool(keyed_by_class)
+    # how Daemon.handleRequest hands the arguments of __getattr__/__setattr__ requests to the property helpers
+    from tools.gen.gen import find_class
+    hr = find_func(mod, "handleRequest", "Daemon")
+    forms = {}
+    for call in ast.walk(hr):
+        if isinstance(call, ast.Call) and isinstance(call.func, ast.Name) and call.func.id in ("_get_exposed_property_value", "_set_exposed_property_value"):
+            need(call.func.id not in forms, "handleRequest calls %s more than once" % call.func.id)
+            want = 1 if call.func.id.startswith("_get") else 2
+            if any(isinstance(a, ast.Starred) for a in call.args) or any(k.arg is None for k in call.keywords):
+                forms[call.func.id] = "star"       # *vargs / **kwargs: request arguments can reach trailing parameters
+                continue
+            need(not call.keywords, "%s is called with keyword arguments" % call.func.id)
+            need(len(call.args) == want + 1 and isinstance(call.args[0], ast.Name), "%s: unrecognised argument list" % call.func.id)
+            for i, a in enumerate(call.args[1:]):
+                need(isinstance(a, ast.Subscript) and isinstance(a.value, ast.Name) and a.value.id == "vargs"
+                     and isinstance(a.slice, ast.Constant) and a.slice.value == i, "%s: argument %d is not vargs[%d]" % (call.func.id, i + 1, i))
+            forms[call.func.id] = "indexed"
+    need(set(forms) == {"_get_exposed_property_value", "_set_exposed_property_value"}, "handleRequest does not call both property helpers")
+    # the helpers' own signature: (obj, propname[, value], only_exposed=True) — nothing else a request could bind
+    for fn, npos in (("_get_exposed_property_value", 2), ("_set_exposed_property_value", 3)):
+        a = find_func(mod, fn).args
+        need(not a.vararg and not a.kwarg and not a.kwonlyargs and len(a.args) == npos + 1 and a.args[-1].arg == "only_exposed"
+             and len(a.defaults) == 1 and isinstance(a.defaults[0], ast.Constant) and a.defaults[0].value is True,
+             "%s: unexpected signature" % fn)
+    out += "\n(* Daemon.handleRequest passes vargs[0] (, vargs[1]) to the property helpers — no *vargs / **kwargs *)\n"
+    out += "Definition attr_requests_index_arguments : bool := %s.\n" % cbool(all(v == "indexed" for v in forms.values()))
     shas = {"is_private_attribute": ast_sha(f)}
     for fn in ("expose", "_get_attribute", "_get_exposed_members", "_get_exposed_property_value", "_set_exposed_property_value"):
         shas[fn] = ast_sha(find_func(mod, fn))
